@@ -35,31 +35,38 @@ Print Assumptions C03_pair_sound.
 (* The complete, finite table (every (concrete class, assignable attribute) pair in scope; the row count is printed
    in the evidence): each pair passes the check or its setter is listed as refuted.  By computation. *)
 Theorem C03_all_setters_ok : forall q, In q T_pairs -> q_scope q = true ->
-  pair_ok T_funcs T_classes q = true \/ In (q_name q) C03_listed.
+  pair_ok T_funcs T_classes q = true \/ listed_as C03_listed q = true.
 Proof.
-  assert (H : forallb (fun q => negb (q_scope q) || pair_ok T_funcs T_classes q || existsb (String.eqb (q_name q)) C03_listed) T_pairs = true)
+  assert (H : forallb (fun q => negb (q_scope q) || pair_ok T_funcs T_classes q || listed_as C03_listed q) T_pairs = true)
     by (vm_compute; reflexivity).
-  rewrite forallb_forall in H. intros q Hq Hs. specialize (H q Hq). rewrite Hs in H. change (negb true) with false in H. rewrite orb_false_l in H.
-  apply orb_true_iff in H as [H|H]; [left; exact H|right].
-  apply existsb_exists in H as [n [Hn E]]. apply String.eqb_eq in E. subst n. exact Hn.
+  rewrite forallb_forall in H. intros q Hq Hs. specialize (H q Hq). rewrite Hs in H.
+  change (negb true) with false in H. rewrite orb_false_l in H.
+  apply orb_true_iff in H. exact H.
 Qed.
 Print Assumptions C03_all_setters_ok.
 
-(* The list is exact: every listed setter has a pair in the current table that fails the check, with a computed
-   witness of loss (memory and file differ after a normally-ending path) or of refusal (no normally-ending path
-   touches the attribute). *)
-Theorem C03_listed_exact : forall n, In n C03_listed ->
-  exists q, In q T_pairs /\ q_scope q = true /\ q_name q = n /\ pair_ok T_funcs T_classes q = false
-            /\ (pair_lost T_funcs T_classes q = true \/ pair_refused T_funcs T_classes q = true).
+(* The list is exact.  (a) every listed name matches a pair of the current table; (b) EVERY in-scope pair it matches
+   fails the check (so the short key is precise: no class for which the setter works hides behind it), with a
+   computed witness of loss (memory and file differ after a normally-ending path) or of refusal (no normally-ending
+   path touches the attribute).  A repaired setter makes this theorem fail: the list cannot go stale. *)
+Theorem C03_listed_exact :
+  (forall n, In n C03_listed -> exists q, In q T_pairs /\ q_scope q = true /\ listed_as [n] q = true) /\
+  (forall q, In q T_pairs -> q_scope q = true -> listed_as C03_listed q = true ->
+     pair_ok T_funcs T_classes q = false /\
+     (pair_lost T_funcs T_classes q = true \/ pair_refused T_funcs T_classes q = true)).
 Proof.
-  assert (H : forallb (fun n => existsb (fun q => q_scope q && String.eqb (q_name q) n && negb (pair_ok T_funcs T_classes q)
-                                              && (pair_lost T_funcs T_classes q || pair_refused T_funcs T_classes q)) T_pairs) C03_listed = true)
-    by (vm_compute; reflexivity).
-  rewrite forallb_forall in H. intros n Hn. specialize (H n Hn).
-  apply existsb_exists in H as [q [Hq H]].
-  apply andb_true_iff in H as [H H4]. apply andb_true_iff in H as [H H3]. apply andb_true_iff in H as [H1 H2].
-  exists q. split; [exact Hq|]. split; [exact H1|]. split; [apply String.eqb_eq; exact H2|].
-  split; [apply negb_true_iff; exact H3|]. apply orb_true_iff; exact H4.
+  split.
+  - assert (H : forallb (fun n => existsb (fun q => q_scope q && listed_as [n] q) T_pairs) C03_listed = true)
+      by (vm_compute; reflexivity).
+    rewrite forallb_forall in H. intros n Hn. specialize (H n Hn). apply existsb_exists in H as [q [Hq H]].
+    apply andb_true_iff in H as [H1 H2]. exists q. auto.
+  - assert (H : forallb (fun q => negb (q_scope q && listed_as C03_listed q)
+                                 || (negb (pair_ok T_funcs T_classes q)
+                                     && (pair_lost T_funcs T_classes q || pair_refused T_funcs T_classes q))) T_pairs = true)
+      by (vm_compute; reflexivity).
+    rewrite forallb_forall in H. intros q Hq Hs Hl. specialize (H q Hq). rewrite Hs, Hl in H.
+    change (negb (true && true)) with false in H. rewrite orb_false_l in H.
+    apply andb_true_iff in H as [H1 H2]. split; [apply negb_true_iff; exact H1 | apply orb_true_iff; exact H2].
 Qed.
 Print Assumptions C03_listed_exact.
 
@@ -67,8 +74,8 @@ Print Assumptions C03_listed_exact.
    the setter after which memory and file differ on an inspected field. *)
 Theorem C03_lost_witness : forall q, pair_lost T_funcs T_classes q = true ->
   exists p u, In p (pair_paths T_funcs T_classes false q) /\ unroll p u /\ no_bad u = true /\
-              onf e0 = true /\ in_sync (check_fields T_classes q) e0 /\
-              ~ in_sync (check_fields T_classes q) (run u 0 vals0 e0).
+              onf e0 = true /\ in_sync (check_fields T_funcs T_classes q) e0 /\
+              ~ in_sync (check_fields T_funcs T_classes q) (run u 0 vals0 e0).
 Proof. exact (pair_lost_witness T_funcs T_classes). Qed.
 Print Assumptions C03_lost_witness.
 
